@@ -16,4 +16,6 @@ done
 # regenerate the source-derived tables from the restored tree (the last check left those of the changed tree behind)
 for t in consts accounts skeleton txlists oracles; do python3 /verif/translator/$t.py >/dev/null 2>&1; done
 (cd /verif/harness && CARGO_NET_OFFLINE=true cargo build --offline >/dev/null 2>&1)
+# … and the model driver that embeds them
+(cd /verif/lean && lake build driver >/dev/null 2>&1)
 git -C /repo status --short | head -3
